@@ -111,15 +111,36 @@ func init() {
 			*args[0].(*value) = (*args[0].(*value)).(int32) + args[1].(int32)
 			return *args[0].(*value)
 		},
+		// sync.Pool: Get may return any item Put earlier, or a new one.  For pools
+		// used directly by the code under test both behaviours are explored (a
+		// structural choice whenever the pool holds an item); pools inside the
+		// standard library always hand out a new item (their reuse is not the
+		// subject and would only multiply paths).
 		"(*sync.Pool).Get": func(fr *frame, args []value) value {
-			st := (*args[0].(*value)).(structure)
+			pp := args[0].(*value)
+			st := (*pp).(structure)
+			if free := ex.pools[pp]; len(free) > 0 && fr.caller != nil && fr.caller.fn != nil && fr.caller.fn.Pkg != nil &&
+				strings.HasPrefix(fr.caller.fn.Pkg.Pkg.Path(), "github.com/wneessen/go-mail") {
+				if ex.choose("pool-reuse", 2) == 1 {
+					it := free[len(free)-1]
+					ex.pools[pp] = free[:len(free)-1]
+					return it
+				}
+			}
 			newf := st[len(st)-1]
 			if f, ok := newf.(*ssa.Function); ok && f == nil {
 				return iface{}
 			}
 			return call(fr.i, fr, 0, newf, nil)
 		},
-		"(*sync.Pool).Put": func(fr *frame, args []value) value { return nil },
+		"(*sync.Pool).Put": func(fr *frame, args []value) value {
+			pp := args[0].(*value)
+			if ex.pools == nil {
+				ex.pools = map[*value][]value{}
+			}
+			ex.pools[pp] = append(ex.pools[pp], args[1])
+			return nil
+		},
 		"time.initLocal": func(fr *frame, args []value) value { return nil },
 		"(*internal/godebug.Setting).Value":         func(fr *frame, args []value) value { return "" },
 		"(*internal/godebug.Setting).IncNonDefault": func(fr *frame, args []value) value { return nil },
